@@ -109,6 +109,10 @@ lp_upolynomial_t* lp_upolynomial_construct_power(const lp_int_ring_t* K, size_t 
   lp_upolynomial_t* result = lp_upolynomial_construct_empty(K, 1);
   integer_construct_from_int(K, &result->monomials[0].coefficient, c);
   result->monomials[0].degree = degree;
+  if (integer_sgn(lp_Z, &result->monomials[0].coefficient) == 0) {
+    // c is zero in K: the zero polynomial is the constant 0 (no zero terms are stored)
+    result->monomials[0].degree = 0;
+  }
   return result;
 }
 
